@@ -1,5 +1,5 @@
 import NA.Proofs.C06Gate
-import NA.Gen.GateSkel
+import NA.Proofs.C06Text
 /-!
 # C06 — approve never changes a wrong, unmanaged or passive device
 
@@ -19,10 +19,16 @@ may be a fault), any configuration `env.cfg`, any list `env.plan` of pending cha
   Linux, NSX).  On the unchanged tree the Linux instance was false
   (`marker_unconfigured_unfixed_counterexample`: nil dereference, F-C06b); repaired by a
   `fix:` commit, `linuxCheckBanner` models the repaired function and `skeleton_matches` pins it.
-* `skeleton_matches`, `front_ends_match`, `gate_impls`, `errUnmanaged_writes` — the programs the
-  theorems talk about have the call skeleton regenerated from the Go source on every run
-  (order of calls in approve, the gate before applyCommands, which field each
-  `GetErrUnmanaged` returns, every write to `errUnmanaged`).
+* `NA.Props.C06Tie`: `skeleton_matches`, `front_ends_match`, `gate_impls`, `errUnmanaged_writes` —
+  the programs the theorems talk about have the call skeleton regenerated from the Go source on
+  every run (order of calls in approve, the gate before applyCommands, the printed form of
+  every guard, which field each `GetErrUnmanaged` returns, every write to `errUnmanaged`).
+* `change_only_after_gate`, `commit_only_after_gate`, `change_implies_host_reported`,
+  `change_implies_ha_active`, `change_implies_marker_seen` — the positive form: whatever was
+  changed, hostname, marker and HA state had been established (any bound of the NSX paging and
+  PAN-OS polling loops).
+* `banner_word_check_iff`, `marker_split_across_outputs`, `marker_inside_longer_text`,
+  `panMarked_iff`, `linux_issue_check_iff`, … — the marker checks as statements about strings.
 -/
 namespace NA.C06
 open NA.Gate NA.Gate.Spec
@@ -78,7 +84,9 @@ theorem safe_load (b : Backend) (cfg : Cfg) :
     simp only [backendLoad, backendGetChanges, nsxLoadDevice, safe, this, Bool.and_true, Bool.true_and]
     decide
 
-theorem noCrash_load (b : Backend) (cfg : Cfg) :
+/-- The load part of every backend with an interlock contains neither a nil dereference nor an
+unbounded loop (NSX has the paging loops, and no interlock). -/
+theorem noCrash_load (b : Backend) (hb : b ≠ .nsx) (cfg : Cfg) :
     (noCrash (backendLoad b cfg) && noCrash (backendGetChanges b)) = true := by
   cases b
   · rfl
@@ -89,19 +97,15 @@ theorem noCrash_load (b : Backend) (cfg : Cfg) :
     simp only [backendLoad, backendGetChanges, panLoadDevice, errRet, noCrash, this, Bool.and_true,
       Bool.true_and]
     decide
-  · have h : ∀ n, noCrash (nsxLoginBody n) = true := fun n => by rfl
-    have := noCrash_tryNames nsxLoginBody h cfg.names
-    simp only [backendLoad, backendGetChanges, nsxLoadDevice, noCrash, this, Bool.and_true,
-      Bool.true_and]
-    decide
+  · exact absurd rfl hb
 
 /-- If the load part of approve stops or leaves the gate shut, the run is refused. -/
-theorem refused_of_shut (b : Backend) (env : Env) (hc : env.cfg.isCompare = false)
+theorem refused_of_shut (b : Backend) (hb : b ≠ .nsx) (env : Env) (hc : env.cfg.isCompare = false)
     (hshut : (exec env (backendGetChanges b) (exec env (backendLoad b env.cfg) {})).status.isRunning = true →
       consults b = true ∧ (exec env (backendGetChanges b) (exec env (backendLoad b env.cfg) {})).errU ≠ []) :
     Refused b (runMain b env) := by
   rw [runMain_approve b env hc]
-  exact approveWith_blocked env b _ _ _ _ (safe_load b env.cfg) (noCrash_load b env.cfg) hshut
+  exact approveWith_blocked env b _ _ _ _ (safe_load b env.cfg) (noCrash_load b hb env.cfg) hshut
 
 /-- **Wrong hostname.**  A device that never reports (one of) the expected name(s) is not changed:
 no configuration-changing request, no save/commit, exit status 1, an ERROR line — for every
@@ -109,7 +113,7 @@ backend that asks for the name, every device behaviour, every configuration, eve
 theorem wrong_hostname_no_change (b : Backend) (hb : b ≠ .nsx) (env : Env)
     (hc : env.cfg.isCompare = false) (h : WrongHost b (expectedNames b env.cfg) env.dev) :
     Refused b (runMain b env) := by
-  apply refused_of_shut b env hc
+  apply refused_of_shut b hb env hc
   intro hr
   exfalso
   have : (exec env (backendGetChanges b) (exec env (backendLoad b env.cfg) {})).status.isRunning = false := by
@@ -128,7 +132,9 @@ Hypothesis `b ≠ .linux` is the exact complement of finding F-C06a. -/
 theorem missing_marker_no_change_partial (b : Backend) (hb : b ≠ .linux) (env : Env)
     (hc : env.cfg.isCompare = false) (h : MarkerAbsent b env.cfg env.dev) :
     Refused b (runMain b env) := by
-  apply refused_of_shut b env hc
+  have hnsx : b ≠ .nsx := by
+    intro e; subst e; exact h
+  apply refused_of_shut b hnsx env hc
   cases b with
   | asa =>
     obtain ⟨m, hm, hn⟩ := h
@@ -142,7 +148,7 @@ theorem missing_marker_no_change_partial (b : Backend) (hb : b ≠ .linux) (env 
       noRecord_ciscoGetChanges hr⟩
   | linux => exact absurd rfl hb
   | panos => intro hr; exact ⟨rfl, panos_marker_shut env h hr⟩
-  | nsx => exact absurd h (by simp [MarkerAbsent])
+  | nsx => exact absurd rfl hnsx
 
 /-! ### the Linux instance is false of the code (F-C06a) -/
 
@@ -157,7 +163,7 @@ def linuxUnmarkedDev : Dev := fun _ o =>
   | _ => .text ""
 
 def linuxUnmarkedEnv : Env :=
-  { cfg := { banner := some (fun _ => false), bannerSrc := "NetSPoC" }
+  { cfg := { banner := some (Rx.ofWord "NetSPoC".toList), bannerSrc := "NetSPoC" }
     dev := linuxUnmarkedDev
     plan := ["ip route add 10.0.0.0/8 via 10.1.1.99"] }
 
@@ -188,7 +194,7 @@ theorem linux_gate_would_hold :
 /-- **Passive HA member** (PAN-OS): never changed. -/
 theorem ha_passive_no_change (env : Env) (hc : env.cfg.isCompare = false) (h : HaPassive env.dev) :
     Refused .panos (runMain .panos env) := by
-  apply refused_of_shut .panos env hc
+  apply refused_of_shut .panos (by decide) env hc
   intro hr
   exfalso
   have := panos_ha_blocks env h (backendGetChanges .panos)
@@ -210,13 +216,16 @@ theorem noRecord_linuxPost : noRecord linuxPostBanner = true := by decide
 theorem noRecord_linuxGetChanges : noRecord linuxGetChanges = true := by decide
 
 theorem ciscoCheckBanner_skip (env : Env) (h : env.cfg.banner = none) (st : St) :
-    exec env ciscoCheckBanner st = st := by
-  simp only [ciscoCheckBanner, exec, h]
-  split <;> rfl
+    (exec env ciscoCheckBanner st).errU = st.errU := by
+  simp only [ciscoCheckBanner, exec_seq]
+  have hx : (exec env (Prog.assign .lines true true .bannerLines) st).errU = st.errU := by
+    simp only [exec]; split <;> rfl
+  generalize exec env (Prog.assign .lines true true .bannerLines) st = x at hx
+  simp [exec, Pred.eval, penv, h, hx]
 
 theorem linuxCheckBanner_skip (env : Env) (h : env.cfg.banner = none) (st : St) :
     exec env (linuxCheckBanner env.cfg) st = st := by
-  simp only [linuxCheckBanner, exec, h, Option.isNone_none, if_true]
+  simp only [linuxCheckBanner, exec, Pred.eval, penv, h, Option.isNone_none, if_true]
   split <;> rfl
 
 theorem cisco_errU_nil (env : Env) (h : env.cfg.banner = none) (post gc : Prog)
@@ -266,12 +275,12 @@ def asaFriendlyDev : Dev := fun _ o =>
 example :
     let f := runMain .asa { cfg := {}, dev := asaFriendlyDev, plan := ["route inside 10.0.0.0 255.0.0.0 10.1.2.3"] }
     f.exit = 0 ∧ .plan "route inside 10.0.0.0 255.0.0.0 10.1.2.3" ∈ f.trace ∧ .lit "write memory" ∈ f.trace := by
-  decide
+  decide +kernel
 
-/-- The same device with the marker configured but absent: refused (non-vacuity of
-`missing_marker_no_change_partial`; the hypothesis holds because the regexp matches nothing). -/
-example : MarkerAbsent .asa { banner := some (fun _ => false) } asaFriendlyDev :=
-  ⟨_, rfl, fun _ _ => rfl⟩
+/-- Non-vacuity of `missing_marker_no_change_partial`: a `checkbanner` regexp that matches no
+character can never be found, whatever the device sends. -/
+example : MarkerAbsent .asa { banner := some Rx.never } asaFriendlyDev :=
+  ⟨_, rfl, fun _ _ => search_never _⟩
 
 /-- The unchanged tree (before the `fix:` commit): `cfg.CheckBanner.String()` with
 `checkbanner` unset is a nil dereference — exit status 2, no ERROR line, instead of a normal
@@ -283,33 +292,221 @@ theorem marker_unconfigured_unfixed_counterexample :
           (consults .linux) linuxApply) {})).exit = 2 :=
   ⟨{ linuxUnmarkedEnv with cfg := {} }, rfl, by decide⟩
 
-/-! ### the tie: skeletons regenerated from the Go source -/
+/-! ### nothing changes before hostname, marker and HA state are established -/
 
-/-- Every function of the model has exactly the skeleton that `translate/gateskel` extracts from
-the Go source now: order of the calls in approve/compare, the gate before applyCommands, every
-request with its literal argument, every guard with its condition text, every Abort. -/
-theorem skeleton_matches :
-    modelSkeletons.all (fun e => NA.Gen.GateSkel.functions.lookup e.1 == some e.2) = true := by
+theorem not_noChange_of_mem (b : Backend) (tr : List Out) (o : Out) (ho : o ∈ tr)
+    (hh : harmless b o = false) : ¬ NoChange b tr := by
+  intro h
+  have := h o ho
+  rw [hh] at this
+  exact Bool.false_ne_true this
+
+/-- **No configuration-changing request, no save and no commit before the gate is passed**: if the
+trace of an approve run contains one, then LoadDevice and GetChanges ended normally and (where
+`GetErrUnmanaged` returns the recorded list) nothing was recorded — every backend with an
+interlock, every device, every configuration, every plan, every bound of the polling loops. -/
+theorem change_only_after_gate (b : Backend) (hb : b ≠ .nsx) (env : Env)
+    (hc : env.cfg.isCompare = false) (h : ¬ NoChange b (runMain b env).trace) :
+    (exec env (backendGetChanges b) (exec env (backendLoad b env.cfg) {})).status.isRunning = true ∧
+    (consults b = true →
+      (exec env (backendGetChanges b) (exec env (backendLoad b env.cfg) {})).errU = []) := by
+  apply Classical.byContradiction
+  intro hn
+  apply h
+  apply (refused_of_shut b hb env hc _).1
+  intro hr
+  cases hcb : consults b with
+  | false => exact absurd ⟨hr, fun hx => by rw [hcb] at hx; cases hx⟩ hn
+  | true =>
+    refine ⟨rfl, ?_⟩
+    intro he
+    exact hn ⟨hr, fun _ => he⟩
+
+/-- … in particular the PAN-OS commit and the polling of its job (however long the device answers
+PEND) happen only after the gate. -/
+theorem commit_only_after_gate (env : Env) (hc : env.cfg.isCompare = false) (u : String)
+    (h : .litArg "type=commit&action=partial&cmd=" u ∈ (runMain .panos env).trace) :
+    (exec env panGetChanges (exec env (panLoadDevice env.cfg) {})).status.isRunning = true ∧
+    (exec env panGetChanges (exec env (panLoadDevice env.cfg) {})).errU = [] := by
+  have := change_only_after_gate .panos (by decide) env hc (not_noChange_of_mem .panos _ _ h (by rfl))
+  exact ⟨this.1, this.2 rfl⟩
+
+/-- If anything was changed, the device did report (one of) the expected name(s) … -/
+theorem change_implies_host_reported (b : Backend) (hb : b ≠ .nsx) (env : Env)
+    (hc : env.cfg.isCompare = false) (h : ¬ NoChange b (runMain b env).trace) :
+    ∃ q hist n, hostQuery b = some q ∧ n ∈ expectedNames b env.cfg ∧ hostIs b (env.dev hist q) n = true := by
+  apply Classical.byContradiction
+  intro hn
+  apply h
+  apply (wrong_hostname_no_change b hb env hc _).1
+  intro q hq hist n hmem
+  cases hv : hostIs b (env.dev hist q) n with
+  | false => rfl
+  | true => exact absurd ⟨q, hist, n, hq, hmem, hv⟩ hn
+
+/-- … a PAN-OS device did claim to be the active member … -/
+theorem change_implies_ha_active (env : Env) (hc : env.cfg.isCompare = false)
+    (h : ¬ NoChange .panos (runMain .panos env).trace) :
+    ∃ hist, haActive (env.dev hist panHaQuery) = true := by
+  apply Classical.byContradiction
+  intro hn
+  apply h
+  apply (ha_passive_no_change env hc _).1
+  intro hist
+  cases hv : haActive (env.dev hist panHaQuery) with
+  | false => rfl
+  | true => exact absurd ⟨hist, hv⟩ hn
+
+/-- … and the marker was seen: on ASA / IOS the configured regexp matches a concatenation of texts
+the device sent; on PAN-OS the device showed a configuration in which every managed vsys carries
+`netspoc` in its display-name.  (Linux is missing: F-C06a.) -/
+theorem change_implies_marker_seen (b : Backend) (hb : b ≠ .linux) (hn : b ≠ .nsx) (env : Env)
+    (hc : env.cfg.isCompare = false) (h : ¬ NoChange b (runMain b env).trace) :
+    match b with
+    | .asa | .ios => ∀ r, env.cfg.banner = some r →
+        ∃ l : List String, (∀ s ∈ l, ∃ hist o, env.dev hist o = .text s) ∧ r.search (String.join l).toList = true
+    | .panos => ∃ hist hname vs, env.dev hist panConfQuery = .conf hname vs ∧
+        ∀ v ∈ vs, v.1 ∈ env.cfg.targetVsys → vsysMarked v.2 = true
+    | _ => True := by
+  have key : ¬ MarkerAbsent b env.cfg env.dev := fun hm =>
+    h (missing_marker_no_change_partial b hb env hc hm).1
+  cases b with
+  | asa =>
+    intro r hr
+    apply Classical.byContradiction
+    intro hne
+    apply key
+    refine ⟨r, hr, ?_⟩
+    intro l hl
+    cases hv : r.search (String.join l).toList with
+    | false => rfl
+    | true => exact absurd ⟨l, hl, hv⟩ hne
+  | ios =>
+    intro r hr
+    apply Classical.byContradiction
+    intro hne
+    apply key
+    refine ⟨r, hr, ?_⟩
+    intro l hl
+    cases hv : r.search (String.join l).toList with
+    | false => rfl
+    | true => exact absurd ⟨l, hl, hv⟩ hne
+  | panos =>
+    apply Classical.byContradiction
+    intro hne
+    apply key
+    intro hist hname vs hd
+    apply Classical.byContradiction
+    intro hno
+    apply hne
+    refine ⟨hist, hname, vs, hd, ?_⟩
+    intro v hv ht
+    cases hm : vsysMarked v.2 with
+    | true => rfl
+    | false => exact absurd ⟨v, hv, ht, hm⟩ hno
+  | linux => exact absurd rfl hb
+  | nsx => exact absurd rfl hn
+
+/-- Non-vacuity for the polling loop: a PAN-OS device (HA off, marked vsys, right name) that
+answers PEND three times before OK — approve sends the change, the commit and four polls, exit 0;
+with a bound of two rounds the run is still polling (`unfinished`), and a device without the
+marker gets nothing but the read-only requests. -/
+def panFriendlyDev (displayName : String) : Dev := fun hist o =>
+  match o with
+  | .lit "type=keygen" => .text "KEY"
+  | .lit "type=op&cmd=<show><high-availability><state/></high-availability></show>" => .ha "no" "" ""
+  | .lit "type=config&action=get&xpath=/config/devices" => .conf "router" [("vsys1", displayName)]
+  | .litArg "type=commit&action=partial&cmd=" _ => .text "6"
+  | .litArg "type=op&cmd=<show><jobs><id>" _ =>
+    if (hist.filter fun h => h == .litArg "type=op&cmd=<show><jobs><id>" "job").length < 3 then .text "PEND"
+    else .text "OK"
+  | _ => .text ""
+
+example :
+    let env (fuel : Nat) (dn : String) : Env :=
+      { cfg := { targetVsys := ["vsys1"], fuel := fuel }, dev := panFriendlyDev dn, plan := ["action=set&x"] }
+    (runMain .panos (env 8 "managed-by-NetSPoC")).exit = 0 ∧
+    ((runMain .panos (env 8 "managed-by-NetSPoC")).trace.filter
+        fun o => o == .litArg "type=op&cmd=<show><jobs><id>" "job").length = 4 ∧
+    (runMain .panos (env 2 "managed-by-NetSPoC")).status = .unfinished ∧
+    (runMain .panos (env 8 "FW7")).exit = 1 ∧
+    (runMain .panos (env 8 "FW7")).trace.length = 3 := by
+  decide +kernel
+
+/-! ### the marker checks as statements about strings -/
+
+/-- ASA / IOS, `checkbanner` a plain word `w`: `checkBanner` leaves `errUnmanaged` empty iff `w`
+occurs, as a contiguous block, in the concatenation of what was collected during login. -/
+theorem banner_word_check_iff (env : Env) (w : List Char) (hb : env.cfg.banner = some (Rx.ofWord w))
+    (st : St) (hr : st.status.isRunning = true) (he : st.errU = []) :
+    (exec env ciscoCheckBanner st).errU = [] ↔ ∃ x y, (String.join st.banner).toList = x ++ w ++ y := by
+  rw [← infixL_iff, ← search_ofWord]
+  simp only [ciscoCheckBanner, exec_seq]
+  generalize ht : (String.join st.banner).toList = t
+  have hx : exec env (Prog.assign .lines true true .bannerLines) st = { st with lines := t } := by
+    simp only [exec, hr, if_true, TExp.eval, penv, ht]
+  rw [hx]
+  cases hs : (Rx.ofWord w).search t with
+  | true => simp [exec, hr, Pred.eval, TExp.eval, penv, hb, hs, he]
+  | false => simp [exec, hr, Pred.eval, TExp.eval, penv, hb, hs, missingBanner]
+
+/-- The word split over two outputs of the login dialogue counts as present (the code searches
+the concatenation) … -/
+theorem marker_split_across_outputs (u v x y : List Char) (a b : String)
+    (ha : a.toList = x ++ u) (hb : b.toList = v ++ y) :
+    Rx.search (Rx.ofWord (u ++ v)) (String.join [a, b]).toList = true := by
+  rw [search_ofWord, infixL_iff]
+  refine ⟨x, y, ?_⟩
+  simp [String.join, ha, hb]
+
+/-- … and so does the word inside a longer word, or repeated. -/
+theorem marker_inside_longer_text (w pre post : List Char) :
+    Rx.search (Rx.ofWord w) (pre ++ w ++ post) = true := by
+  rw [search_ofWord, infixL_iff]; exact ⟨pre, post, rfl⟩
+
+/-- Concrete texts (evaluated by the kernel): inside a word and repeated count; a blank or a line
+break inside the word, or other letter case, do not (for ASA / IOS the regexp is case-sensitive
+unless the administrator writes `(?i)`). -/
+theorem marker_text_examples :
+    Rx.search (Rx.ofWord "NetSPoC".toList) "xxNetSPoCyy".toList = true ∧
+    Rx.search (Rx.ofWord "NetSPoC".toList) "NetSPoC NetSPoC".toList = true ∧
+    Rx.search (Rx.ofWord "NetSPoC".toList) "managed by Net SPoC".toList = false ∧
+    Rx.search (Rx.ofWord "NetSPoC".toList) "Net\nSPoC".toList = false ∧
+    Rx.search (Rx.ofWord "NetSPoC".toList) "managed by netspoc".toList = false := by
   decide
 
-/-- drc: `-C` is the only source of `isCompare`, which is the first argument of
-ApproveOrCompare; two arguments go to CompareFiles.  do-approve: `isCompare := action == "compare"`. -/
-theorem front_ends_match :
-    frontEndFacts.all (fun e =>
-      (NA.Gen.GateSkel.functions.lookup e.1).map (fun l => l.filter isFrontEndItem) == some e.2) = true := by
+/-- PAN-OS: the marker is the word `netspoc` in any letter case anywhere in the display-name. -/
+theorem panMarked_iff (dn : String) :
+    panMarked dn = true ↔ ∃ x y, lowerL dn.toList = x ++ "netspoc".toList ++ y := by
+  unfold panMarked; exact infixL_iff _ _
+
+theorem panMarked_examples :
+    panMarked "FW7-managed-by-NetSPoC" = true ∧ panMarked "NETSPOC" = true ∧
+    panMarked "xnetspocx" = true ∧ panMarked "net spoc" = false ∧ panMarked "FW7" = false := by
   decide
 
-/-- Which field each `GetErrUnmanaged` of the module returns — the model's `consults`. -/
-theorem gate_impls :
-    NA.Gen.GateSkel.gateImpls =
-      [("cisco.(*State).GetErrUnmanaged", "s.errUnmanaged"), ("linux.(*State).GetErrUnmanaged", "nil"),
-       ("nsx.(*State).GetErrUnmanaged", "nil"), ("panos.(*State).GetErrUnmanaged", "s.errUnmanaged")] := by
-  decide
+/-- Linux: on a host whose /etc/issue is `issue`, `checkBanner` records the error iff no
+non-empty line of the file matches the regexp (so a marker broken over two lines does not count,
+unlike on ASA / IOS). -/
+theorem linux_issue_check_iff (env : Env) (r : Rx) (issue : String)
+    (hd : LinuxIssue env.cfg r env.dev issue) (st : St) (hr : st.status.isRunning = true)
+    (he : st.errU = []) :
+    (exec env (linuxGrep env.cfg) st).errU = [missingBanner] ↔
+      ∀ l ∈ splitLines issue.toList, l = [] ∨ r.search l = false := by
+  rw [← grepOut_nil_iff]
+  have hs : st.status = .running := Status.isRunning_iff.mp hr
+  obtain ⟨s, hrep, hsl⟩ := hd st.trace
+  simp only [linuxMarkerQuery] at hrep
+  simp only [linuxGrep, exec_seq, exec_send]
+  rw [sendStep_running env _ _ st hs, hrep]
+  cases hg : grepOut r issue.toList with
+  | nil => simp [exec, hs, Pred.eval, TExp.eval, penv, hsl, hg]
+  | cons c cs => simp [exec, hs, Pred.eval, TExp.eval, penv, hsl, hg, he, missingBanner]
 
-/-- `errUnmanaged` is written at exactly the three places the model has a `record` node. -/
-theorem errUnmanaged_writes :
-    NA.Gen.GateSkel.errUnmanagedWrites.map (·.1) =
-      ["cisco.(*State).checkBanner", "linux.(*State).checkBanner", "panos.(*State).checkUnmanaged"] := by
+theorem linux_issue_examples :
+    grepOut (Rx.ofWord "NetSPoC".toList) "Debian\n--- managed by NetSPoC ---\n".toList =
+      "--- managed by NetSPoC ---\n".toList ∧
+    grepOut (Rx.ofWord "NetSPoC".toList) "managed by Net\nSPoC\n".toList = [] := by
   decide
 
 /-- Both front ends reach the run the theorems above talk about: `drc FILE` without `-C` and
@@ -324,11 +521,15 @@ theorem front_ends_run_approve (b : Backend) (cfg : Cfg) (flags : List String) (
   · simp [runDoApprove, doApproveCases, List.lookup, doApproveCompareWord]
 
 def obligations : List Lean.Name := [
+  ``change_only_after_gate, ``commit_only_after_gate, ``change_implies_host_reported,
+  ``change_implies_ha_active, ``change_implies_marker_seen,
+  ``banner_word_check_iff, ``marker_split_across_outputs, ``marker_inside_longer_text,
+  ``marker_text_examples, ``panMarked_iff, ``panMarked_examples, ``linux_issue_check_iff,
+  ``linux_issue_examples, ``NA.Gate.search_ofWord, ``NA.Gate.infixL_iff, ``NA.Gate.grepOut_nil_iff,
   ``front_ends_run_approve,
   ``wrong_hostname_no_change, ``missing_marker_no_change_partial,
   ``missing_marker_no_change_counterexample, ``linux_gate_would_hold, ``ha_passive_no_change,
   ``marker_unconfigured_proceeds, ``marker_unconfigured_linux_clean,
-  ``marker_unconfigured_unfixed_counterexample,
-  ``skeleton_matches, ``front_ends_match, ``gate_impls, ``errUnmanaged_writes]
+  ``marker_unconfigured_unfixed_counterexample]
 
 end NA.C06
